@@ -43,13 +43,38 @@ main :-
 """
 
 
+# ---- static predicates with mixed first arguments (index construction: CodeOffsets::compute_indices and friends)
+KINDS = [("[a,x]", "L1"), ("[b]", "L2"), ('"bc"', "S1"), ("f(1)", "F1"), ("f(2)", "F2"), ("g(1)", "G1"), ("a", "A1"), ("b", "A2"), ("1", "I1"), ("2", "I2"), ("_", "V")]
+EQUIV = {"L1": "[a,x]", "L2": "[b]", "S1": "[b,c]", "F1": "f(1)", "F2": "f(2)", "G1": "g(1)", "A1": "a", "A2": "b", "I1": "1", "I2": "2"}
+PATTERNS = [
+    ["L1", "L2", "F1", "F2"], ["L1", "S1", "F1", "F2"], ["L1", "L2", "F1", "F2", "A1"], ["L1", "L2", "F1", "G1"], ["L1", "F1", "F2"], ["L1", "L2", "F1"],
+    ["F1", "F2", "L1", "L2"], ["A1", "A2", "L1", "L2", "F1", "F2"], ["I1", "I2", "F1", "F2", "L1", "S1"], ["L1", "V", "L2", "F1", "F2"], ["F1", "L1", "F2", "L2", "A1", "I1"],
+    ["L1", "L2"], ["F1", "F2"], ["A1", "A1", "L1", "L1"], ["S1", "S1", "F1", "F1", "G1"], ["L1", "L2", "F1", "F2", "V"],
+]
+
+
+def static_program():
+    text = dict(KINDS)
+    inv = {v: k for k, v in KINDS}
+    lines, checks = [], []
+    for n, pat in enumerate(PATTERNS):
+        for j, k in enumerate(pat):
+            lines.append("sp%d(%s, %d)." % (n, inv[k], j))
+        for qk in ["L1", "L2", "S1", "F1", "F2", "G1", "A1", "A2", "I1", "I2"]:
+            exp = [j for j, k in enumerate(pat) if k == "V" or EQUIV[k] == EQUIV[qk]]
+            checks.append("t(static(%d,%s), sp%d(%s), %s)" % (n, qk.lower(), n, inv[qk], str(exp).replace(" ", "")))
+    return lines, checks
+
+
 def replay_all(repo, by_ob, scratch, log):
     binary = replay_arith.build_binary(repo, log)
     out = {}
     if not binary:
         return {ob: None for ob in by_ob}
     path = os.path.join(scratch, "replay_index.pl")
-    open(path, "w").write(PROGRAM)
+    lines, checks = static_program()
+    prog = PROGRAM.replace("main :-\n", ":- set_prolog_flag(double_quotes, chars).\n" + "\n".join(lines) + "\nstatic_checks :- " + ",\n    ".join(checks) + ".\nmain :-\n    static_checks,\n", 1)
+    open(path, "w").write(prog)
     p = subprocess.run([binary, "-f", "--no-add-history", path], capture_output=True, text=True, timeout=300, stdin=subprocess.DEVNULL)
     fails = []
     for line in p.stdout.split("\n"):
